@@ -422,4 +422,6 @@ def _binding_kind_index():
 
 TARGETS = [{"name": "c15_o2_q_execute_index_seek", "crate": "nervusdb-query", "run": run_seek}] + \
           [{"name": "c15_o4_q_first_label_filter_%dlabels" % k, "crate": "nervusdb-query", "run": run_label_filter(k)} for k in (0, 1, 2, 3)] + \
-          [{"name": "c15_o5_q_label_filter_body_%dlabels" % k, "crate": "nervusdb-query", "run": run_label_filter_body(k)} for k in (0, 1, 2, 3)]
+          [{"name": "c15_o5_q_label_filter_body_%dlabels" % k, "crate": "nervusdb-query", "run": run_label_filter_body(k)} for k in (0, 1, 2, 3)] + \
+          [{"name": "c15_o4_t_first_label_filter_%dlabels" % k, "crate": "nervusdb-query", "run": run_label_filter(k)} for k in (4, 5, 6, 8)] + \
+          [{"name": "c15_o5_t_label_filter_body_%dlabels" % k, "crate": "nervusdb-query", "run": run_label_filter_body(k)} for k in (4, 5, 6, 8)]
